@@ -277,7 +277,7 @@ type Desc struct {
 	Key    []Val   `json:"key,omitempty"`
 	Seed   uint32  `json:"seed,omitempty"`
 	Places []Place `json:"places,omitempty"`
-	Fill   uint64  `json:"fill,omitempty"` // seed of the filler rows
+	Fill   uint64  `json:"fill,omitempty"`  // seed of the filler rows
 	Extra  int     `json:"extra,omitempty"` // value columns after the prefix
 	// range
 	T  string `json:"t,omitempty"`
